@@ -62,11 +62,18 @@ def _run_bisim(task):
     evs2 = list(m.events(h2))
     if [repr(e) for e in evs1] != [repr(e) for e in evs2]:
         return ("enabled events differ", None)
+    def step(o, ev):
+        try:
+            return m.observe(m.apply(o, ev))
+        except HarnessError:
+            raise
+        except BaseException as e:  # noqa - a crashing transition is an observation like any other
+            return ("crash", crash_site(e, _M["repo_root"])[1])
     for ev in evs1:
         o1 = m.build(h1)
-        r1 = m.observe(m.apply(o1, ev))
+        r1 = step(o1, ev)
         o2 = m.build(h2)
-        r2 = m.observe(m.apply(o2, ev))
+        r2 = step(o2, ev)
         if stable_hash(r1) != stable_hash(r2) or stable_hash(m.canon(o1)) != stable_hash(m.canon(o2)):
             return ("after event %r" % (ev,), ev)
     return (None, None)
@@ -117,6 +124,7 @@ def bfs(machine, max_depth=None, jobs=None, repo_root="/repo", validate_merges=1
                 for ev in machine.events(h):
                     tasks.append((h, ev))
             if not tasks:
+                frontier = []      # no state of the frontier has an enabled event: nothing left to explore
                 break
             if pool is not None:
                 cs = max(1, len(tasks) // (jobs * 8))
